@@ -100,6 +100,19 @@ Example C06_lazy_flush_refused :
   fst (step cfg0 (snd (step cfg0 (run cfg0 hist0) (OSetAttr 3 1 (VInt 102)))) (OSyncUpdate 3)) = Raise EDuplicate.
 Proof. vm_compute. reflexivity. Qed.
 
+(* a multi-column set whose NON-COLUMN keyword is refused -- a property of the class whose setter raises (keyword 4),
+   or a keyword the class does not know (3) -- falls under C06_failing_write_changes_nothing like any other raise:
+   eager and lazy object alike show, queue and store nothing of the call (lazy: since the repair 71eb426) *)
+Example C06_refused_extra_keyword :
+  let s := run cfg0 hist0 in
+  fst (step cfg0 s (OSet 0 [(0%nat, VInt 5); (4%nat, VBad)])) = Raise EValue /\
+  snd (step cfg0 s (OSet 0 [(0%nat, VInt 5); (4%nat, VBad)])) = with_fault (with_log s []) None /\
+  fst (step cfg0 s (OSet 2 [(0%nat, VInt 5); (4%nat, VBad)])) = Raise EValue /\
+  snd (step cfg0 s (OSet 2 [(0%nat, VInt 5); (4%nat, VBad)])) = with_fault (with_log s []) None /\
+  fst (step cfg0 s (OSet 2 [(4%nat, VInt 1); (0%nat, VInt 5)])) = Ret RNone /\
+  i_pending (get_inst (snd (step cfg0 s (OSet 2 [(4%nat, VInt 1); (0%nat, VInt 5)]))) 2) = [(0%nat, VInt 5)].
+Proof. vm_compute. repeat split. Qed.
+
 Print Assumptions C06_failing_write_changes_nothing.
 Print Assumptions C06_create_atomic.
 Print Assumptions C06_create_fault_atomic.
